@@ -265,6 +265,8 @@ def generated_params_case(run, h, rng):
     """parameters from RangeConstraintParameters::new: honest constraint verifies, extremes included"""
     h.rng(rng.randrange(2 ** 32))
     rph = h.call("rp_new")[0]
+    s1 = [rph[192 * k:192 * k + 96] for k in range(128)]
+    run.check_monitor("digit_signatures_have_independent_bases", len(set(s1)) == 128, {"op": "generated_params"})
     for v in (0, 2 ** 63 - 1, rng.randrange(2 ** 63)):
         ctx = rng.randbytes(5)
         t = h.call("rc_prove", v, rph, hx(ctx))
